@@ -96,6 +96,12 @@ func Fib(n int) int {
 func Sq(n int) int { return n*n + int(Y) }
 
 //go:noinline
+func Cube(n int) int { return n*n*n - int(Y) }
+
+//go:noinline
+func Dbl(n int) int { return len(fmt.Sprint(n)) - len(fmt.Sprint(n)) + 2*n }
+
+//go:noinline
 func Deep(n int) int { // recursion with a frame
 	var pad [64]byte
 	pad[n&63] = byte(n)
@@ -164,10 +170,179 @@ func mk1(f func(int) int, arg int, stack bool) kase {
 
 func withExpect(k kase, n int) kase { k.expect = n; return k }
 
+func ph0() func() int {
+	return func() int {
+		fmt.Println("only for placeholder, will not call")
+		fmt.Println("only for placeholder, will not call")
+		fmt.Println("only for placeholder, will not call")
+		return 0
+	}
+}
+
+func ph1() func(int) int {
+	return func(n int) int {
+		fmt.Println("only for placeholder, will not call", n)
+		fmt.Println("only for placeholder, will not call", n)
+		fmt.Println("only for placeholder, will not call", n)
+		return 0
+	}
+}
+
+// distinct func literals: every placeholder needs its own code (goom writes the trampoline into the placeholder's body)
+var ph0s = []func() int{
+	func() int {
+		fmt.Println("only for placeholder, will not call", 0)
+		fmt.Println("only for placeholder, will not call", 0)
+		fmt.Println("only for placeholder, will not call", 0)
+		return 0
+	},
+	func() int {
+		fmt.Println("only for placeholder, will not call", 1)
+		fmt.Println("only for placeholder, will not call", 1)
+		fmt.Println("only for placeholder, will not call", 1)
+		return 0
+	},
+	func() int {
+		fmt.Println("only for placeholder, will not call", 2)
+		fmt.Println("only for placeholder, will not call", 2)
+		fmt.Println("only for placeholder, will not call", 2)
+		return 0
+	},
+}
+
+var ph1s = []func(int) int{
+	func(n int) int {
+		fmt.Println("only for placeholder, will not call", n, 0)
+		fmt.Println("only for placeholder, will not call", n, 0)
+		fmt.Println("only for placeholder, will not call", n, 0)
+		return 0
+	},
+	func(n int) int {
+		fmt.Println("only for placeholder, will not call", n, 1)
+		fmt.Println("only for placeholder, will not call", n, 1)
+		fmt.Println("only for placeholder, will not call", n, 1)
+		return 0
+	},
+	func(n int) int {
+		fmt.Println("only for placeholder, will not call", n, 2)
+		fmt.Println("only for placeholder, will not call", n, 2)
+		fmt.Println("only for placeholder, will not call", n, 2)
+		return 0
+	},
+}
+
+// several functions of the identical func type mocked at the same time, each with its own placeholder; the functions return
+// different values, so a placeholder running the wrong original shows (callbacks are pass-through: a re-entry through
+// morestack, known finding F4, must only change the callback count, not the result)
+func multi0(stack bool, fs ...func() int) kase {
+	plain := func() string {
+		r := ""
+		for _, f := range fs {
+			r += fmt.Sprint(f(), ";")
+		}
+		return r
+	}
+	return kase{hasStackCheck: stack, expect: 2 * len(fs), plain: plain,
+		install: func(cnt *int32) (func() string, interface{}, func()) {
+			m := goom.Create()
+			origins := make([]func() int, len(fs))
+			for k := range fs {
+				k := k
+				origins[k] = ph0s[k]
+				m.Func(fs[k]).Origin(&origins[k]).Apply(func() int {
+					atomic.AddInt32(cnt, 1)
+					return origins[k]()
+				})
+			}
+			call := func() string {
+				// through the mock (callback -> own placeholder), then every placeholder called directly
+				r := ""
+				for _, f := range fs {
+					r += fmt.Sprint(f(), ";")
+				}
+				d := ""
+				for k := range fs {
+					atomic.AddInt32(cnt, 1)
+					d += fmt.Sprint(origins[k](), ";")
+				}
+				if d != r {
+					return "direct:" + d + " via-mock:" + r
+				}
+				return r
+			}
+			return call, fs[0], func() { m.Reset() }
+		}}
+}
+
+func multi1(stack bool, arg int, fs ...func(int) int) kase {
+	plain := func() string {
+		r := ""
+		for _, f := range fs {
+			r += fmt.Sprint(f(arg), ";")
+		}
+		return r
+	}
+	return kase{hasStackCheck: stack, expect: 2 * len(fs), plain: plain,
+		install: func(cnt *int32) (func() string, interface{}, func()) {
+			m := goom.Create()
+			origins := make([]func(int) int, len(fs))
+			for k := range fs {
+				k := k
+				origins[k] = ph1s[k]
+				m.Func(fs[k]).Origin(&origins[k]).Apply(func(n int) int {
+					atomic.AddInt32(cnt, 1)
+					return origins[k](n)
+				})
+			}
+			call := func() string {
+				r := ""
+				for _, f := range fs {
+					r += fmt.Sprint(f(arg), ";")
+				}
+				d := ""
+				for k := range fs {
+					atomic.AddInt32(cnt, 1)
+					d += fmt.Sprint(origins[k](arg), ";")
+				}
+				if d != r {
+					return "direct:" + d + " via-mock:" + r
+				}
+				return r
+			}
+			return call, fs[0], func() { m.Reset() }
+		}}
+}
+
+// the function is mocked (plain callback, no placeholder) and, while that mock is still applied, mocked again with an
+// origin placeholder — by the same builder or by another one; the placeholder has to run the real function
+func remock1(f func(int) int, arg int, stack, sameBuilder bool) kase {
+	return kase{hasStackCheck: stack, plain: func() string { return fmt.Sprint(f(arg)) },
+		install: func(cnt *int32) (func() string, interface{}, func()) {
+			m1 := goom.Create()
+			m1.Func(f).Apply(func(n int) int { return -777 })
+			if f(arg) != -777 {
+				panic("first mock not active")
+			}
+			m2 := m1
+			if !sameBuilder {
+				m2 = goom.Create()
+			}
+			origin := ph1()
+			m2.Func(f).Origin(&origin).Apply(func(n int) int {
+				atomic.AddInt32(cnt, 1)
+				return origin(n)
+			})
+			return func() string { return fmt.Sprint(f(arg)) }, f, func() { m2.Reset(); m1.Reset() }
+		}}
+}
+
 var zoo = map[string]kase{
 	"S1": mk0(S1, false), "SetX": mk0(SetX, false), "CmpX": mk0(CmpX, false), "S2": mk0(S2, true), "S3": mk0(S3, true),
 	"Leaf": mk0(Leaf, false), "Load": mk0(Load, false), "Big": mk0(Big, true), "Printer": mk0(Printer, true), "G": mk0(G, false),
 	"Fib": withExpect(mk1(Fib, 12, true), 465), "Sq": mk1(Sq, 9, false), "Deep": withExpect(mk1(Deep, 40, true), 41),
+	"TwinLeafG": multi0(false, Leaf, G), "TripleLeafGLoad": multi0(false, Leaf, G, Load), "TwinS2S3": multi0(true, S2, S3),
+	"TwinSqCube": multi1(false, 9, Sq, Cube), "TwinDblSq": multi1(true, 7, Dbl, Sq),
+	"RemockSq": remock1(Sq, 9, false, false), "RemockDbl": remock1(Dbl, 7, true, false), "RemockSameBuilderCube": remock1(Cube, 5, false, true),
 	"Mixed": {hasStackCheck: true, plain: func() string { a, s := Mixed(3, "ab", 5); return fmt.Sprint(a, s) },
 		install: func(cnt *int32) (func() string, interface{}, func()) {
 			origin := func(a int, s string, b int) (int, string) {
@@ -244,6 +419,7 @@ func child(name string, maxDepth, step int) string {
 	}
 	_ = before
 	calls, wrong, twice, zero, first := 0, 0, 0, 0, "-"
+	firstWrong := ""
 	for d := 0; d <= maxDepth; d += step {
 		done := make(chan [2]string, 1)
 		go func(d int) {
@@ -261,6 +437,9 @@ func child(name string, maxDepth, step int) string {
 		if r[0] != want {
 			wrong++
 			bad = true
+			if firstWrong == "" {
+				firstWrong = fmt.Sprintf(" got=%q want=%q", r[0], want)
+			}
 		}
 		exp := k.expect
 		if exp == 0 {
@@ -288,7 +467,7 @@ func child(name string, maxDepth, step int) string {
 		restored = false
 	}
 	_ = cntAfter
-	return fmt.Sprintf("applied calls=%d wrong=%d cbtwice=%d cbzero=%d first=%s restored=%v", calls, wrong, twice, zero, first, restored)
+	return fmt.Sprintf("applied calls=%d wrong=%d cbtwice=%d cbzero=%d first=%s restored=%v%s", calls, wrong, twice, zero, first, restored, strings.ReplaceAll(firstWrong, ";", ","))
 }
 
 // TestVerifC03Exec is parent and child.
